@@ -403,12 +403,29 @@ def run(ctx):
     c = repo.func(f"{IU}:_collect_implicit_usages")
     # for <g> in reversed(<stack parameter>): if <g> is <input>.graph: break  - innermost first, stop at the owner
     ok = False
+    def innermost_first(it):
+        """(stack name, skips the bottom element) when `it` walks a stack parameter from its top: reversed(S), reversed(S[1:]),
+        S[::-1], S[:0:-1] - also through a local bound once to such an expression."""
+        it = _unalias(c, it)
+        if isinstance(it, ast.Call) and dotted_of(it.func) == "reversed" and it.args:
+            a = _unalias(c, it.args[0])
+            if isinstance(a, ast.Name):
+                return a.id, False
+            if isinstance(a, ast.Subscript) and isinstance(a.slice, ast.Slice) and a.slice.upper is None and a.slice.step is None and isinstance(a.value, ast.Name):
+                lo = a.slice.lower
+                return a.value.id, isinstance(lo, ast.Constant) and lo.value == 1
+        if isinstance(it, ast.Subscript) and isinstance(it.slice, ast.Slice) and isinstance(it.value, ast.Name) and it.slice.lower is None \
+                and isinstance(it.slice.step, ast.UnaryOp) and isinstance(it.slice.step.op, ast.USub) and isinstance(it.slice.step.operand, ast.Constant) and it.slice.step.operand.value == 1:
+            up = it.slice.upper
+            if up is None:
+                return it.value.id, False
+            if isinstance(up, ast.Constant) and up.value == 0:
+                return it.value.id, True
+        return None, False
+
     for lp in (n for n in own_nodes(c.node) if isinstance(n, ast.For)):
-        it = lp.iter
-        base = _unalias(c, it.args[0]) if isinstance(it, ast.Call) and dotted_of(it.func) == "reversed" and it.args else None
-        if isinstance(base, ast.Subscript) and isinstance(base.slice, ast.Slice) and base.slice.upper is None and base.slice.step is None:
-            base = base.value  # reversed(stack[1:]): the stack without the analysed graph at its bottom
-        if not (isinstance(base, ast.Name) and base.id in c.params and isinstance(lp.target, ast.Name)):
+        sname, _skip = innermost_first(lp.iter)
+        if not (sname is not None and sname in c.params and isinstance(lp.target, ast.Name)):
             continue
         g = lp.target.id
         for iff in (n for n in ast.walk(lp) if isinstance(n, ast.If)):
@@ -427,15 +444,13 @@ def run(ctx):
             for n in own_nodes(entry_fn.node))
     safe = root_has_entry
     for lp in (n for n in own_nodes(c.node) if isinstance(n, ast.For)):
-        it = lp.iter
-        if not (isinstance(it, ast.Call) and dotted_of(it.func) == "reversed" and it.args):
+        sname, skips_bottom = innermost_first(lp.iter)
+        if sname is None:
             continue
-        a0 = _unalias(c, it.args[0])
         stores = [x for x in ast.walk(lp) if isinstance(x, ast.Subscript) and isinstance(lp.target, ast.Name) and norm(x.slice) == lp.target.id]
         if not stores:
             continue
-        sliced = isinstance(a0, ast.Subscript) and isinstance(a0.slice, ast.Slice) and isinstance(a0.slice.lower, ast.Constant) and a0.slice.lower.value == 1 \
-            and a0.slice.upper is None and isinstance(a0.value, ast.Name) and a0.value.id in c.params
+        sliced = skips_bottom and sname in c.params
         stops = any(isinstance(i_, ast.If) and any(isinstance(b, ast.Break) for b in i_.body) and isinstance(i_.test, ast.Compare) and len(i_.test.ops) == 1
                     and isinstance(i_.test.ops[0], ast.Is) and any(isinstance(sd, ast.Subscript) and isinstance(sd.slice, ast.Constant) and sd.slice.value == 0
                                                                  for sd in (i_.test.left, i_.test.comparators[0])) for i_ in ast.walk(lp))
